@@ -14,11 +14,12 @@ import refconc
 
 PROPERTY = "C17"
 MODULES = ["edit"]
-FAULTS = ["crash", "eperm", "enospc", "short"]
+FAULTS = ["crash", "eperm", "enospc", "short", "shortret"]
 ASSUMPTIONS = [
     "fault model on the abstract filesystem: whatever mutating calls edit_torrent makes (remove/open/write/rename/"
     "replace/mkdir/copy) are fault points; one fault per run at a symbolic operation index: process death before the "
-    "operation, PermissionError, ENOSPC (a write has stored a strict prefix), short write followed by death",
+    "operation, PermissionError, ENOSPC (a write has stored a strict prefix), short write followed by death, and - only for "
+    "files opened unbuffered - a short write reported through the return value",
     "open(path,'wb') truncates at open; rename/replace are atomic (POSIX); durability across power loss (fsync ordering) "
     "is outside the model",
     "NEW = the metafile a fault-free run of the same request writes (computed on a twin world in the same path)",
@@ -196,6 +197,8 @@ def replay(params, model, notes, workdir, seed):
             raise PermissionError(13, "Permission denied", path)
         if kind == "enospc" and name != "write":
             raise OSError(28, "No space left on device", path)
+        if kind == "shortret" and name != "write":
+            return None
         return kind
 
     real_open, real_remove, real_replace, real_rename = builtins.open, os.remove, os.replace, os.rename
@@ -206,6 +209,13 @@ def replay(params, model, notes, workdir, seed):
 
         def write(self, data):
             r = point("write", self.path)
+            if r == "shortret" and not getattr(self, "raw", False):
+                r = None
+            if r == "shortret":
+                n = max(0, len(data) // 2)
+                self.f.write(bytes(data)[:n])
+                self.f.flush()
+                return n
             if r in ("enospc", "short"):
                 self.f.write(bytes(data)[:max(0, len(data) // 2)])
                 self.f.flush()
@@ -226,7 +236,10 @@ def replay(params, model, notes, workdir, seed):
     def fake_open(path, mode="r", *a, **k):
         if isinstance(path, (str, os.PathLike)) and str(path).startswith(workdir) and any(c in mode for c in "wax+"):
             point("open-" + mode.replace("b", ""), path)
-            return WFile(real_open(path, mode, *a, **k), path)
+            raw = k.get("buffering", a[0] if a else -1) == 0
+            wf = WFile(real_open(path, mode, *a, **k), path)
+            wf.raw = raw
+            return wf
         return real_open(path, mode, *a, **k)
 
     def fake_remove(p):
